@@ -42,6 +42,7 @@ EMPTY_A = {"cfg": "", "tokens": [], "scopes": [], "functions": [], "variables": 
            "containers": [], "directives": []}
 EMPTY_B = {"cfg": "", "tokens": [], "scopes": [], "functions": [], "variables": []}
 
+T0 = time.time()
 NPROC_CPPCHECK = 6
 NPROC_TLC = 4
 
@@ -285,6 +286,10 @@ def run_input(inp, max_tokens):
         shutil.rmtree(work, ignore_errors=True)
 
 
+def _run_input(arg):
+    return run_input(arg[0], arg[1])
+
+
 def project(dump, label, max_tokens):
     try:
         A = dump2nd.dump_to_records(dump)
@@ -350,6 +355,7 @@ class Judge:
             raise vlib.InfraError("model failure in DumpInv.tla (rc=%s) first row %s\n%s" % (r.rc, first, r.out[-2500:]))
         res = vlib.read_ndjson(out)
         os.unlink(inp)
+        print("[C14 %6.1fs] TLC batch %d (%d rows) judged in %.1fs" % (time.time() - T0, k, count, r.wall), flush=True)
         return res
 
     def result(self):
@@ -393,8 +399,9 @@ def explore(inputs, max_tokens):
          "totals": dict((c, 0) for c in COUNTERS)}
     by_name = {}
     jd = Judge()
-    with concurrent.futures.ThreadPoolExecutor(NPROC_CPPCHECK) as ex:
-        for inp, (status, rws, info) in zip(inputs, ex.map(lambda i: run_input(i, max_tokens), inputs)):
+    # processes, not threads: projecting a dump (XML reader + cppcheckdata) is CPU-bound Python
+    with concurrent.futures.ProcessPoolExecutor(NPROC_CPPCHECK) as ex:
+        for inp, (status, rws, info) in zip(inputs, ex.map(_run_input, [(i, max_tokens) for i in inputs], chunksize=1)):
             m["status"][status] += 1
             inp["status"] = status
             inp["ncfg"] = len([r for r in rws if r["hasA"]])
@@ -417,7 +424,9 @@ def explore(inputs, max_tokens):
                 else:
                     m["nocfg"] += 1
                 jd.add(r)
+    print("[C14 %6.1fs] all inputs run and projected" % (time.time() - T0), flush=True)
     bad, m["batches"] = jd.result()
+    print("[C14 %6.1fs] TLC verdicts collected (%d batches)" % (time.time() - T0, m["batches"]), flush=True)
     return m, bad, by_name
 
 
